@@ -215,6 +215,22 @@ CLAIMS = {
        "on the right with an equal value; member errors are passed on. NOT covered: regex matching (engine stubbed out), deeper nesting than "
        "one level per obligation (each level is the same obligation), collections longer than the unroll bound.",
   design="4/C13"),
+ "C14": dict(
+  text="The part of the parser that engine B can read (MIR of the crate's own parser functions; every nom combinator application - tag, "
+       "alt, value, opt, preceded, cut .. - is an opaque call whose result is an arbitrary parse result; z3+cvc5): (a) the 17 keyword "
+       "parsers (in, exists, empty, keys, is_list / is_struct / is_string / is_bool / is_int / is_float / is_null, when, some, this, or, not, "
+       "let / assignment sign) each offer exactly the documented spellings - lower / upper case, `not` also `!`, `or` also `|OR|`, `=` and "
+       "`:=` - and map all of them to one token, so the spellings cannot differ in meaning; (b) the access-clause builder stores negation = "
+       "'a prefix not was parsed' and the query / (operator, operator-level not) pair exactly as parsed; (c) the type-block parser stores "
+       "`AWS::X::Y { .. }` as the query Resources . * [ Type == 'AWS::X::Y' ] (key, all values, one un-named filter with the single un-negated "
+       "all-values clause `Type == <the block's own type name>`). At evaluation level (C01 obligations) `this` continues with the same value. "
+       "Candidates are replayed by loading the same rules file in two documented spellings (19 pairs, incl. comments / blank lines, quotes, "
+       "`.1` vs `[1]`, `this.`, type block vs filter, implicit default rule) and comparing statuses and exit codes.",
+  note="NOT decided (they live inside nom, which CBMC cannot run even on 2 symbolic bytes and whose closures engine B treats as opaque): "
+       "indentation, blank lines, trailing spaces, line breaks inside lists / filters, comments, single vs double quoting, `.n` vs `[n]` "
+       "at parse level, the implicit default rule. These appear only in the native replay battery, i.e. they are exercised when some obligation "
+       "is refuted, not decided by a solver. No Kani harness serves this property.",
+  design="0b/C14"),
  "C15": dict(
   text="Bounded symbolic execution (MIR, callees modelled, value identities tracked; z3+cvc5) of the resolution machinery: "
        "BlockScope::resolve_variable and RootScope::resolve_variable look a name up under that name in their own literal, cache, function "
@@ -274,10 +290,9 @@ CLAIMS = {
   design="4/C18"),
 }
 
-MIR_ONLY = {"C05", "C07", "C11", "C12", "C15"}
+MIR_ONLY = {"C05", "C07", "C11", "C12", "C14", "C15"}
 
 NA = {
- "C14": "nom/LocatedSpan combinators do not terminate under CBMC even on a 2-byte symbolic input (18 min, 7 GB); the parser is outside this technique on this image",
  "C19": "serde template parsing + string building + the full parser and evaluator round trip; whole-program",
 }
 
@@ -317,7 +332,7 @@ def main():
         "engines": [
             {"name": "kani-cbmc", "path": "/verif/check", "serves_properties": sorted(set(CLAIMS) - MIR_ONLY),
              "kind_free_text": "Kani 0.68 (rustc MIR -> goto-program) + CBMC 6.11 (symbolic execution, bit-blasting, CaDiCaL) over the real cfn-guard crate; counterexamples replayed natively with cargo kani playback"},
-            {"name": "mir-smt", "path": "/verif/lib/mirsmt.py", "serves_properties": ["C01", "C02", "C03", "C04", "C05", "C06", "C07", "C08", "C09", "C10", "C11", "C12", "C13", "C15", "C16", "C17", "C18"],
+            {"name": "mir-smt", "path": "/verif/lib/mirsmt.py", "serves_properties": ["C01", "C02", "C03", "C04", "C05", "C06", "C07", "C08", "C09", "C10", "C11", "C12", "C13", "C14", "C15", "C16", "C17", "C18"],
              "kind_free_text": "nightly -Zunpretty=mir dump of the current tree; lib/mirsmt.py (loop-free kernels, havoc-mode overflow/negate site search), lib/mirexec.py (bounded path enumeration with call models, loop unrolling, value identities) and lib/miragg.py / mirblocks.py / mirflow.py / mirpaths.py / mirload.py / mirquery.py / mirorder.py (aggregation, memoisation, index, negation-flow, block, operator-layer, wiring and exit-code obligations) emit SMT-LIB2 decided by z3 4.8.12 and cvc5 1.0 (must agree); candidates are replayed through the real CLI built from the scratch copy"},
         ],
         "checks": checks,
